@@ -20,6 +20,7 @@ import tskit
 from harness import common, gen
 from harness.common import QUICK, SEED, Check
 
+PREFIX_ALLELES = ["AT", "A", "", "ATT", "G", "ATTA", "é", "AA"]
 ARITY = dict(diversity=1, segregating_sites=1, Y1=1, divergence=2, Y2=2, f2=2, Y3=3, f3=3, f4=4)
 
 
@@ -503,7 +504,8 @@ def run():
         S = [u for u in range(len(a["time"])) if a["flags"][u]]
         if len(S) < 2:
             continue
-        ts = gen.build_tables(a).tree_sequence()
+        # allele tokens are rendered either as single letters or as strings that are prefixes of one another (indel-style alleles)
+        ts = gen.build_tables(a, alleles=gen.ALLELES if rng.random() < 0.5 else PREFIX_ALLELES).tree_sequence()
         # chunking by tree for this ts
         for kk in (1, 2, 3, 8):
             ch = ts._chunk_sequence_by_tree(kk)
